@@ -124,6 +124,8 @@ class Run(RunBase):
         if k == "add_batch":
             return all(x in self.pool for x in op["keys"]) and len(ids) == len(op["keys"]) >= 2 and \
                 not (ids & set(self.present))
+        if k == "move":
+            return bool(self.present)
         if k == "add_copy":
             return op["id"] in self.present and op["new_id"] not in self.present and \
                 op["new_id"] not in self.sc_known and op["new_id"] >= 5000
@@ -502,6 +504,17 @@ class Run(RunBase):
         self.present.pop(op["id"])
         return "ok"
 
+    def _op_move(self, op):
+        """The whole network is moved (translate_rotate).  Where the lanelets end up is C05's business - the moved
+        boundaries are adopted as the expected primary data - but the lookups have to follow them, also when further
+        lanelets are added or removed before anybody asks."""
+        self._route("translate_rotate", lambda: self.net.translate_rotate(np.array(op["d"], dtype=float), op["a"]))
+        for la in self.net.lanelets:
+            if la.lanelet_id in self.present:
+                self.present[la.lanelet_id] = {"left": np.array(la.left_vertices, dtype=float),
+                                               "right": np.array(la.right_vertices, dtype=float)}
+        return "ok"
+
     def _op_add_copy(self, op):
         """A lanelet derived from one that is in the network: a deep copy that gets an id of its own through the
         public setter (a bus lane on top of a driving lane) and is added next to its source."""
@@ -784,6 +797,9 @@ def _builder(rng, run, cfg):
         free = [k for k in keys if run.pool[k]["id"] not in run.present]
         if r == "create_from_list":
             yield {"op": r, "keys": rng.sample(keys, rng.randint(1, len(keys)))}
+        elif r in ("add_one", "remove", "add_batch") and run.present and not run.universe.get("lattice") \
+                and rng.chance(0.12):
+            yield {"op": "move", "d": [rng.uniform(-30, 30), rng.uniform(-30, 30)], "a": rng.uniform(-3.0, 3.0)}
         elif r == "add_one" and run.present and rng.chance(0.3):
             n_copy += 1
             op = {"op": "add_copy", "id": rng.pick(sorted(run.present)), "new_id": 5000 + n_copy}
@@ -911,7 +927,7 @@ class C06(Property):
                        "candidate-list-with-repeated-obstacle-id", "fork-keeps-original",
                        "continued-on-the-other-copy", "lattice-point-exactly-on-a-lanelet-border",
                        "lattice-shape-exactly-tangent-to-a-lanelet", "bystander-draw", "bystander-derive",
-                       "second-network-with-other-lanelet-ids", "route:Scenario.add_objects([.., refused])", "bounding-box-decoy-group", "list-removal-interrupted", "route:add_lanelet(deep copy with a new id)",
+                       "second-network-with-other-lanelet-ids", "route:Scenario.add_objects([.., refused])", "bounding-box-decoy-group", "list-removal-interrupted", "route:add_lanelet(deep copy with a new id)", "route:translate_rotate",
                        "bystander-edit-returned-lists"]
     assumptions = [
         "geometric truth comes from crkit.geom (raw vertices / parameters, shapely predicates on geometry built there) "
